@@ -94,11 +94,19 @@ fn replay_loop(
     let mut out = fs::File::create(&args[1]).unwrap();
     let mut cache: Option<(Value, writers::Objects)> = None;
     for l in lines {
-        let uni = l["universe"].clone();
+        let deco = l["opts"]["decorate"].as_str().unwrap_or("").to_owned();
+        let uni = json!({"u": l["universe"], "deco": deco});
         if cache.as_ref().is_none_or(|(u, _)| *u != uni) {
             let specs: Vec<universe::FeatureSpec> =
-                serde_json::from_value(uni.clone()).unwrap();
-            cache = Some((uni.clone(), writers::Objects::new(&specs)));
+                serde_json::from_value(l["universe"].clone()).unwrap();
+            cache = Some((
+                uni.clone(),
+                if !deco.is_empty() {
+                    writers::Objects::new_decorated(&specs, deco == "cdata")
+                } else {
+                    writers::Objects::new(&specs)
+                },
+            ));
         }
         let objs = &cache.as_ref().unwrap().1;
         let mut rec = l.clone();
